@@ -175,6 +175,19 @@ CLAIMED = {
         design='DESIGN.md §5 C19',
         note=NOTE_COMMON + 'The printing glue is correspondence only; interactive mode, pager, readline out of scope (batch mode); shlex/cmd.Cmd trusted.',
         technique='Lean 4 proof (settings state machine, dispatcher) + transcript correspondence + rendering oracle'),
+    'C16': dict(
+        text=('Lean theorems over the layout model (text as character lists): a padded cell has exactly the column width when the '
+              'value fits and is never truncated (blanks on one side only); every body line has length frame + widths + '
+              'separators, the rules have the same length in all four box styles, hence the table is rectangular; column j starts '
+              'at a fixed offset (prefix-length theorem); headers are centred with at most one blank of difference and cut only '
+              'when the column is narrower; decimal cells place the integral part so that the decimal point of every value is at '
+              'offset nintegral, and have the column width; a row without list cells is one line, row expansion gives max-lines '
+              'lines with one entry per column, spacing adds exactly one blank line per row; CSV = header + one record per '
+              '(expanded) row with one field per column. Tied to the code by correspondence of the complete text and CSV output '
+              'on random tables over all eleven datatypes x all 2^5 option combinations, with read-back and alignment oracles.'),
+        design='DESIGN.md §5 C16',
+        note=NOTE_COMMON + 'PARTIAL: cells of amount/position/cost/inventory/dict columns are instantiated with the real renderers\' strings (DisplayContext number formatting and csv quoting are trusted); width = len (no wide characters).',
+        technique='Lean 4 proof over the layout model + full-output correspondence + read-back/alignment oracles'),
 }
 
 PENDING_REASON = 'check under construction in this round (model or correspondence not yet registered); not claimed yet'
